@@ -357,8 +357,10 @@ def _shard(args):
             if time.time() > deadline:
                 stats["timeout"] = True
                 break
+            # stop early only on concrete failing inputs: a broken correspondence alone (drift) keeps the
+            # search going, so that a real failing input - if one exists - is what gets reported
             nviol = sum(1 for f in stats["failures"] if any(o["kind"] == "violation" for o in f["outcomes"]))
-            if nviol >= 2 or len(stats["failures"]) >= 8:
+            if nviol >= 2:
                 break
     stats["nontrivial"] = list(stats["nontrivial"])
     return stats
@@ -392,7 +394,10 @@ def _run_batch(prop, hyp, batch, stats):
             elif o.kind == "repaired":
                 stats["repaired"].setdefault(o.finding, {"case": c, "outcome": o.as_dict()})
         if bad_outcomes(outcomes):
-            stats["failures"].append({"case": c, "outcomes": [o.as_dict() for o in bad_outcomes(outcomes)]})
+            is_viol = any(o.kind == "violation" for o in outcomes)
+            ndrift = sum(1 for f in stats["failures"] if not any(o["kind"] == "violation" for o in f["outcomes"]))
+            if is_viol or ndrift < 8:       # keep every failing input, but only the first few drift cases
+                stats["failures"].append({"case": c, "outcomes": [o.as_dict() for o in bad_outcomes(outcomes)]})
 
 
 # ----------------------------------------------------------------------------
